@@ -1,5 +1,6 @@
 import H264.PpsC05
 import H264.PpsExact
+import H264.SmallProofC05
 /-! # C05 — PPS parsing recovers exactly the values encoded per H.264 7.3.2.2
 
 Model: `Pps.parsePps spsById` mirrors `PicParameterSet::from_bits(ctx, …)`; the context enters as the lookup function.
@@ -33,5 +34,12 @@ theorem slice_groups_forward (s : Sps.Sps) (g : Option SliceGroup)
 theorem tail_detected_exactly (s : Sps.Sps) (e : Option PpsExtra) (sm : Option Sps.ScalingSyntax)
     (wf : match e with | none => True | some e => e.WF s sm) (z : Nat) :
     readPpsExtra s ⟨encPpsExtra e sm ++ trailing z, .eof⟩ = .ok (e, ⟨trailing z, .eof⟩) := readPpsExtra_enc s e sm wf z
+
+/-- **model = real code on a complete small domain, by proof**: num_slice_groups_minus1 0…8 × slice_group_map_type 0…7, each with the
+element counts 7.3.2.2 prescribes (n + 1 run lengths, n rectangles, one change rate, ids of ⌈log₂(n+1)⌉ bits), against a
+2 × 2 macroblock SPS parsed by the model: the model PPS parser accepts exactly the PPS the real parser accepted in this run's graph
+and returns the same kind of slice group -/
+theorem model_parser_reproduces_code_on_map_types : (List.range 72).map SmallProof.ppsMapRow = Generated.ppsMapRows :=
+  SmallProof.ppsMap_model_eq_code
 
 end C05
